@@ -358,6 +358,10 @@ def mirrorOp (t : WT) (w : List String) : WT × String :=
     match parseKey k with
     | some k => let (t', r) := update Hh t k [] 0; (t', resStr r (fun _ => "ok"))
     | none => (t, "bad-op")
+  | ["mupdel0", k] =>
+    match parseKey k with
+    | some k => let (t', r) := update Hh t k [] 0; (t', resStr r (fun _ => "ok"))
+    | none => (t, "bad-op")
   | ["mdel", k] =>
     match parseKey k with
     | some k => let (t', r) := deleteKey Hh t k; (t', resStr r (fun c => s!"ok:{c}"))
@@ -382,6 +386,22 @@ def step (s : St) (w : List String) : St × String :=
   | ["updel", k] =>
     match parseKey k with
     | some k => let (t', r) := update Hh s.t k [] 0; ({ s with t := t' }, resStr r (fun _ => "ok"))
+    | none => (s, "bad-op")
+  | ["updel0", k] =>
+    -- Update(key, []byte{}, 0): "no value" spelled as an empty non-nil slice — the same delete
+    match parseKey k with
+    | some k => let (t', r) := update Hh s.t k [] 0; ({ s with t := t' }, resStr r (fun _ => "ok"))
+    | none => (s, "bad-op")
+  | ["updbad", k, v, wt] =>
+    -- Update with a key that is not 32 bytes (nil, empty, 31 / 33 bytes)
+    match parseKey (if k = "nil" ∨ k = "empty" then "" else k), unhex (if v = "-" then "" else v) with
+    | some k, some v =>
+      let (t', r) := update Hh s.t k v wt.toNat!
+      ({ s with t := t' }, resStr r (fun _ => "ok"))
+    | _, _ => (s, "bad-op")
+  | ["delbad", k] =>
+    match parseKey (if k = "nil" ∨ k = "empty" then "" else k) with
+    | some k => let (t', r) := deleteKey Hh s.t k; ({ s with t := t' }, resStr r (fun c => s!"ok {c}"))
     | none => (s, "bad-op")
   | ["del", k] =>
     match parseKey k with
@@ -492,7 +512,7 @@ def step (s : St) (w : List String) : St × String :=
       | .err e => ({ s with t := t', exportB := none }, errStr e)
       | .ok data => ({ s with t := t', exportB := some data }, s!"ok n={data.length} d={((hex (Hh data)).take 16).toString}")
   | op :: _ =>
-    if op = "mupd" ∨ op = "mdel" ∨ op = "mupdel" then
+    if op = "mupd" ∨ op = "mdel" ∨ op = "mupdel" ∨ op = "mupdel0" then
       match s.part with
       | none => (s, "skip")
       | some p =>
